@@ -540,6 +540,8 @@ func (p *Parser) parseWhere(stmt *SelectStatement) error {
 		}
 	}
 
+	conditions = lowerLogicalNot(conditions)
+
 	// Validate functions in WHERE condition. 分析函数调用（含 OVER）先替换为占位符，
 	// 避免 OVER 被误判为未知函数；stmt.Condition 保留原文，由 ToStreamConfig 提取。
 	whereCondition := strings.Join(conditions, " ")
@@ -552,6 +554,56 @@ func (p *Parser) parseWhere(stmt *SelectStatement) error {
 
 	stmt.Condition = whereCondition
 	return nil
+}
+
+// lowerLogicalNot rewrites SQL's logical NOT for expr-lang. expr-lang has no
+// upper-case NOT keyword, and its `!` binds tighter than a comparison while SQL's
+// NOT binds looser (NOT a > 5 means NOT (a > 5)), so the operand is parenthesised
+// explicitly: it extends to the next AND/OR at the same parenthesis depth, to the
+// parenthesis that closes the enclosing group, or to the end of the condition.
+// The NOT of `IS NOT NULL` and `NOT LIKE` follows an operand and is left alone.
+func lowerLogicalNot(tokens []string) []string {
+	out := make([]string, 0, len(tokens)+4)
+	depth := 0
+	var open []int // parenthesis depth at which each pending "!(" was opened
+	closeAt := func(d int) {
+		for len(open) > 0 && open[len(open)-1] >= d {
+			out = append(out, ")")
+			open = open[:len(open)-1]
+		}
+	}
+	for _, t := range tokens {
+		switch t {
+		case "NOT":
+			logical := len(out) == 0
+			if !logical {
+				switch out[len(out)-1] {
+				case "(", "&&", "||", "!(":
+					logical = true
+				}
+			}
+			if logical {
+				out = append(out, "!(")
+				open = append(open, depth)
+			} else {
+				out = append(out, t)
+			}
+		case "&&", "||":
+			closeAt(depth)
+			out = append(out, t)
+		case "(":
+			out = append(out, t)
+			depth++
+		case ")":
+			closeAt(depth)
+			depth--
+			out = append(out, t)
+		default:
+			out = append(out, t)
+		}
+	}
+	closeAt(0)
+	return out
 }
 
 func (p *Parser) parseWindowFunction(stmt *SelectStatement, winType string) error {
